@@ -312,7 +312,7 @@ func C05(c *core.Ctx) {
 					return 0, 0
 				}
 				isF := func(v ssa.Value) bool { _, ok := core.FieldOf(v, "Nexthop"); return ok }
-				if (isF(x) && y == nh) || (isF(y) && x == nh) {
+				if (isF(x) && core.Same(y, nh)) || (isF(y) && core.Same(x, nh)) {
 					return core.Iff(op == token.EQL)
 				}
 				return 0, 0
@@ -328,7 +328,7 @@ func C05(c *core.Ctx) {
 					}
 				} else {
 					if _, v, ok := storeToField(in, "baseFibStrategyEntry", "nexthops"); ok {
-						if _, isSl := core.Strip(v).(*ssa.Slice); isSl {
+						if _, isSl := core.Strip(v).(*ssa.Slice); isSl || isSlicesDelete(v) {
 							eff = append(eff, in)
 						}
 					}
@@ -407,7 +407,7 @@ func C05(c *core.Ctx) {
 			c.Decide(bad == "", "R5.8", fmt.Sprintf("update-targets-exact-entry:%s#%d", core.FuncName(fn), nUpd), c.Pos(in), "the updated entry comes from the exact-match search or the fill", core.FuncName(fn)+" overwrites the next hops / strategy of an entry obtained from "+bad+": an update for a prefix that has no node of its own changes its nearest ancestor instead (e.g. unsetting an unknown prefix strips the strategy of a shorter one)")
 		})
 	}
-	c.Floor("R5.8", "entry updates in the tree FIB", nUpd, 5)
+	c.Floor("R5.8", "entry updates in the tree FIB", nUpd, 3)
 
 	// ---- R5.7 hash-table FIB: virtualDetails.md (the depth from which lookups under a
 	// virtual prefix start probing) never under-estimates: it is set to len(name) on a
@@ -485,7 +485,7 @@ func C05(c *core.Ctx) {
 			c.Decide(good, "R5.7", fmt.Sprintf("md-never-underestimates:%s#%d", fname, nMd), c.Pos(in), "md is len(name) of a fresh entry or raised by max over every name", fname+" can set a virtual entry's md below the length of a real prefix stored under it ("+why+"): lookups start probing below that prefix and miss it — a shorter prefix (or nothing) is returned instead of the longest match")
 		})
 	}
-	c.Floor("R5.7", "stores to virtualDetails.md", nMd, 4)
+	c.Floor("R5.7", "stores to virtualDetails.md", nMd, 2)
 
 	// ---- R5.1b every caller of UnSetStrategyEnc rejects the empty (root) name first:
 	// this is the guard that protects the root strategy today.
@@ -572,7 +572,7 @@ func C05(c *core.Ctx) {
 			}
 			c.Decide(fresh || isMax, "R5.5", fmt.Sprintf("virtual-depth-only-raised#%d", n), c.Pos(in), "md is initialised in a fresh entry or stored as max(md, len(name))", "insertEntryEnc can lower the maximum depth recorded for an existing virtual node: longer prefixes below it are no longer found by the longest-prefix match")
 		})
-		c.Floor("R5.5", "stores to virtualDetails.md in insertEntryEnc", n, 3)
+		c.Floor("R5.5", "stores to virtualDetails.md in insertEntryEnc", n, 1)
 	}
 	// ---- R5.6 tree FIB: an entry is named only as the node of exactly that name
 	nName := 0
@@ -615,9 +615,34 @@ func C05(c *core.Ctx) {
 		}
 		name := ssa.Value(fn.Params[1])
 		var rec []ssa.Instruction
-		for _, ci := range core.FindCallsDeep(fn, core.CalleeID{Pkg: "fw/table", Recv: "fibStrategyTreeEntry", Name: fnm}) {
+		var recCalls []ssa.Instruction
+		for _, ci := range core.FindCallsDeep(fn, core.CalleeID{Pkg: "fw/table", Recv: "fibStrategyTreeEntry", Name: core.BaseName(fn)}) {
 			rec = append(rec, ci)
+			recCalls = append(recCalls, ci)
 		}
+		// iterative form: the cursor (a phi) advances to one of its own children; the
+		// step is the jump that carries the child into the phi
+		core.Instrs(fn, func(in ssa.Instruction) {
+			ph, ok := in.(*ssa.Phi)
+			if !ok {
+				return
+			}
+			for i, e := range ph.Edges {
+				u, ok := core.Strip(e).(*ssa.UnOp)
+				if !ok || u.Op != token.MUL {
+					continue
+				}
+				ia, ok := u.X.(*ssa.IndexAddr)
+				if !ok {
+					continue
+				}
+				if _, okF := core.FieldOfDeep(ia.X, "children"); !okF {
+					continue
+				}
+				pred := ph.Block().Preds[i]
+				rec = append(rec, pred.Instrs[len(pred.Instrs)-1])
+			}
+		})
 		compEq := &core.Atom{Name: "name[child.depth-1]==child.component", Match: func(cond ssa.Value) (int, int) {
 			cl, ok := core.Strip(cond).(*ssa.Call)
 			if !ok {
@@ -633,7 +658,7 @@ func C05(c *core.Ctx) {
 				if !ok {
 					return nil, false
 				}
-				if _, ok := core.IsCall(at, core.CalleeID{Pkg: "fw/table", Name: "At"}); !ok || at.Call.Args[0] != name {
+				if _, ok := core.IsCall(at, core.CalleeID{Pkg: "fw/table", Name: "At"}); !ok || !core.Same(at.Call.Args[0], name) {
 					return nil, false
 				}
 				b, ok := core.StripConv(at.Call.Args[1]).(*ssa.BinOp)
@@ -663,10 +688,20 @@ func C05(c *core.Ctx) {
 			"descent recurses only into a child whose component equals the name's component at child.depth-1",
 			"the name-tree descent can enter a child whose component was not compared (or compared at the wrong depth) with the looked-up name")
 		// the recursion is into that same child
-		for _, ci := range rec {
+		for _, ci := range recCalls {
 			r, a := core.CallArgs(ci.(ssa.CallInstruction).Common())
 			_, isElem := core.Strip(r).(*ssa.UnOp)
-			c.Decide(isElem && a[0] == name, "R5.4", fmt.Sprintf("tree-descent-passes-name:%s", fnm), c.Pos(ci), "recursion passes the same name", "descent recursion changes the looked-up name")
+			c.Decide(isElem && core.Same(a[0], name), "R5.4", fmt.Sprintf("tree-descent-passes-name:%s", fnm), c.Pos(ci), "recursion passes the same name", "descent recursion changes the looked-up name")
 		}
 	}
+}
+
+// isSlicesDelete: v is the result of slices.Delete / slices.DeleteFunc.
+func isSlicesDelete(v ssa.Value) bool {
+	cl, ok := core.Strip(v).(*ssa.Call)
+	if !ok {
+		return false
+	}
+	id, ok := core.Callee(&cl.Call)
+	return ok && id.Pkg == "slices" && strings.HasPrefix(id.Name, "Delete")
 }
